@@ -1,11 +1,9 @@
 package t0149
 
-type G1 struct {
-	F0x0 int32
-}
 
 type T struct {
-	F0 *G1
+	F0 *int32
 	F1 *int64
-	F2 *float32
+	F2 float32
+	F3 *float64
 }
